@@ -111,6 +111,7 @@ Apply(e) ==
 \* the end of one execution: every process has exited (none was killed)
 EndCheck(e) ==
   IF \E f \in Files : e.dir[f].lock \/ e.dir[f].nrlock > 0 \/ e.dir[f].temp THEN "ObsCleanExit:control-file-left"
+  ELSE IF "stray" \in DOMAIN e /\ e.stray > 0 THEN "ObsCleanExit:control-file-left"      \* ... of any other table of the directory
   ELSE IF \E f \in must : e.dir[f].ver # ncommit[f] THEN "ObsNoLostUpdate:final-count"
   ELSE IF \E f \in Files \ must : e.dir[f].exists THEN "ObsCleanExit:uncommitted-table-left"
   ELSE IF pend.inc /\ \E f \in pend.fs : e.dir[f].exists THEN "ObsCleanExit:table-created-by-failed-commit-left"
